@@ -556,3 +556,92 @@ def rule_selectout(P):
         else:
             res.ok({'plugin': r.fq, 'renderer': target, 'empty_text': empty_text})
     return res
+
+
+# ----------------------------------------------------------------------
+# R-CMDWORD (C19): the command word of a line; R-QUERYREG (C19): the named queries are those of the ledger as loaded last
+
+def rule_cmdword(P):
+    """DispatchingShell.parseline on concrete command words (what cmd.Cmd.parseline returns is given): exactly one leading dot is
+    the command prefix - `.set` is the command set, `..set` is the unknown command `.set`, a bare word stays as it is; EOF maps to
+    the line `.EOF`."""
+    from ..report import RuleResult
+    res = RuleResult('R-CMDWORD')
+    res.exhaustive = True
+    sh = P.module(SH)
+    ds = sh.classes.get('DispatchingShell')
+    pl = ds.methods.get('parseline') if ds else None
+    if pl is None:
+        raise AnalysisError('anchor vanished: DispatchingShell.parseline')
+    SELF, LINE = Sym('SHELL'), Sym('LINE')
+    vectors = [('.set', 'set'), ('..set', '.set'), ('...run', '..run'), ('select', 'select'), ('SELECT', 'SELECT'), ('.', ''), ('.EOF', 'EOF')]
+    for word, want in vectors:
+        def on_call(fn, fv, rc, args, kw, ex, node, _w=word):
+            if str(fn).endswith('parseline') and args == (LINE,):
+                return T('tuple', (_w, Sym('ARG'), LINE))
+            return NotImplemented
+        for p in Engine(P, on_call=on_call, max_depth=0).paths(pl, {'self': SELF, pl.params[1]: LINE}):
+            v = p.value
+            got = v.args[0] if p.outcome == 'return' and isinstance(v, T) and v.op == 'tuple' and len(v.args) == 3 else None
+            if p.decisions or got != want:
+                res.fail(pl.fq, 'cmdword:prefix', f'the command word `{word}` must be read as `{want}` (one leading dot is the command prefix, '
+                         f'nothing more is removed: `..set x` is the unknown command `.set`, not `.set x`); it is read as '
+                         f'`{got if got is not None else show(v)[:40]}`', loc(pl))
+                break
+            if word == '.EOF' and v.args[2] != '.EOF':
+                res.fail(pl.fq, 'cmdword:eof', 'end of input must become the line `.EOF`', loc(pl))
+        else:
+            res.ok({'word': word, 'command': want})
+    return res
+
+
+def rule_queryreg(P):
+    """BQLShell._extract_queries on terms: after loading, the named queries are exactly the query directives of the entries just
+    loaded (the first directive of a name wins), whatever the registry held before - `.reload` forgets queries that were removed or
+    changed in the file."""
+    from ..report import RuleResult
+    res = RuleResult('R-QUERYREG')
+    res.exhaustive = True
+    sh = P.module(SH)
+    shell = sh.classes.get('BQLShell')
+    fi = shell.methods.get('_extract_queries') if shell else None
+    if fi is None:
+        raise AnalysisError('anchor vanished: BQLShell._extract_queries')
+    SELF, STALE = Sym('SHELL'), Sym('QUERIES_OF_THE_PREVIOUS_LOAD')
+    Q1, OTHER, Q2, Q3 = Sym('QUERY_a_first'), Sym('TRANSACTION'), Sym('QUERY_a_second'), Sym('QUERY_b')
+    names = {Q1: 'a', Q2: 'a', Q3: 'b'}
+
+    def on_attr(base, attr, ex):
+        if base == SELF and attr == 'queries':
+            return STALE
+        if base in names and attr == 'name':
+            return names[base]
+        return NotImplemented
+
+    def on_isinstance(v, c, ex):
+        from ..symex import gname
+        if gname(c).endswith('Query'):
+            return v in names
+        return NotImplemented
+
+    def on_call(fn, fv, rc, args, kw, ex, node):
+        if str(fn).endswith('warn'):
+            ex.events.append(('warned', args))
+            return None
+        return NotImplemented
+    for p in Engine(P, on_attr=on_attr, on_isinstance=on_isinstance, on_call=on_call).paths(fi, {'self': SELF, fi.params[1]: SList([Q1, OTHER, Q2, Q3])}):
+        final = p.heap.get(T('attr', (SELF, 'queries')))
+        stale_use = [e for e in p.events if e[0] == 'call' and show(STALE) in str(e[1])] + \
+            [e for e in p.events if e[0] in ('store', 'mutate') and isinstance(e[1], T) and contains(e[1], STALE)]
+        got = dict(final.items) if isinstance(final, SList) and final.kind == 'dict' and not final.opaque_tail else None
+        if stale_use or final is None:
+            res.fail(fi.fq, 'queryreg:stale', 'the named queries must be rebuilt from the entries just loaded: the registry of the previous load '
+                     'is kept and added to, so after `.reload` a query that was removed or changed in the file still runs with its old '
+                     'text', loc(fi))
+        elif p.decisions or got != {'a': Q1, 'b': Q3}:
+            res.fail(fi.fq, 'queryreg:content', f'with query directives a, (a transaction), a again, b the named queries must be {{a: the first '
+                     f'one, b}}; found `{show(final)[:120]}`', loc(fi))
+        else:
+            res.ok({'function': fi.fq, 'registry': 'rebuilt from the loaded entries; first directive of a name wins',
+                    'duplicate_warned': bool([e for e in p.events if e[0] == 'warned'])})
+    return res
